@@ -12,3 +12,4 @@ import VK.Props.C08CandOrderPairwise
 import VK.Props.C08Rep
 import VK.Props.C08CandOrderTopTwo
 import VK.Props.C08CandOrderAlaska
+import VK.Props.C08RepAlaska
